@@ -52,13 +52,15 @@ MENU = [
     [('lo', 1), ('A', 2), ('A', 3)],
     [('A', 1), ('lo', 2)],               # hit types NOT ordered in height (accepted input): first hit above, second below
     [('A', 1), ('L', 2), ('lo', 3)],
+    [('A', 2)],                          # a measurement holding ONLY higher hits, all above the limit (removed as a whole)
+    [('A', 2), ('A', 3)],
 ]
-QUICK_MENU = [0, 1, 2, 3, 4, 7, 8, 10, 12]
+QUICK_MENU = [0, 1, 2, 3, 4, 7, 8, 12, 14]
 
 
 def bound(tier):
-    return ('1 ceilometer x 3 stamps over a 9-entry menu + 2 ceilometers x 1 stamp over the full 14-entry menu' if tier == 'quick'
-            else '1 ceilometer x 3 stamps over the full 14-entry menu + 2 ceilometers x 2 stamps over the 9-entry menu')
+    return ('1 ceilometer x 3 stamps over a 9-entry menu + 2 ceilometers x 1 stamp over the full 16-entry menu' if tier == 'quick'
+            else '1 ceilometer x 3 stamps over the full 16-entry menu + 2 ceilometers x 2 stamps over the 9-entry menu')
 
 
 def cases(tier):
@@ -96,8 +98,9 @@ def realise(case, valuation, nd=False):
                 else:
                     meas.append(({'lo': LO, 'L': L, None: None}[sym], typ, False))
             if nd:
+                # first / VV hits above the limit become a non-detection; second and higher hits above it are REMOVED
                 kept = [(h, ty) for (h, ty, ab) in meas if not ab]
-                if not kept and any(ab for (_, _, ab) in meas):
+                if not kept and any(ab and ty <= 1 for (_, ty, ab) in meas):
                     kept = [(None, 0)]
                 meas2 = kept
             else:
